@@ -23,6 +23,9 @@
 #include <unordered_set>
 #include <vector>
 
+#include <sys/mman.h>
+#include <sys/wait.h>
+
 #if defined(TCB_SPAN_THROW_ON_CONTRACT_VIOLATION)
 #define C16_CHECKED 1
 static const char* const MODE = "checked";
@@ -45,9 +48,24 @@ static const std::ptrdiff_t DYN = -1;
 static int g_nmax = 6;
 static bool g_have_only = false;
 static std::string g_only;
-static std::string g_cur;   // request being executed (crash attribution)
+static std::string g_cur, g_cur_inst = "harness", g_cur_op = "startup";   // request being executed (crash attribution)
 static long long g_eval = 0, g_requests = 0, g_probes = 0, g_skipped = 0, g_valid = 0, g_invalid = 0, g_views = 0, g_writes = 0;
 static std::unordered_set<uint64_t> g_keys_nt, g_keys_req;
+
+// The enumeration runs in a forked child; the request being executed is kept in memory shared with the parent so that a
+// child that dies without a word (a fatal UBSan report calls _exit) is still attributed to an input.
+struct Shared
+{
+    volatile int done;
+    char key[700], inst[120], op[120];
+};
+static Shared* g_shared = nullptr;
+static void share(char* dst, size_t cap, const std::string& v)
+{
+    size_t n = v.size() < cap - 1 ? v.size() : cap - 1;
+    std::memcpy(dst, v.data(), n);
+    dst[n] = 0;
+}
 
 static uint64_t fnv(const std::string& s)
 {
@@ -270,7 +288,7 @@ static void viol(const Req& rq, const std::string& inst, const std::string& op, 
     vf::violation("C16/" + inst + "/" + op + "/" + MODE + ":" + kind, "[" + std::string(MODE) + " build] " + rq.text + ": " + msg, {"--nmax", std::to_string(g_nmax), "--only", rq.key});
 }
 
-static int g_samples_left[8] = {2, 2, 2, 2, 2, 2, 2, 2};
+static std::set<std::string> g_sampled;
 
 // returns false if the request is not to be executed (filtered by --only, or invalid in the unchecked build)
 static bool begin_request(Req& rq, const std::string& elemname, const std::string& parent, const std::string& inst, size_t n, int layout,
@@ -292,19 +310,15 @@ static bool begin_request(Req& rq, const std::string& elemname, const std::strin
     bool nt = !w.valid || nontrivial_if_valid;
     if (nt) g_keys_nt.insert(h);
     g_cur = rq.key;
-    // a few cases written out for the evidence
-    if (n == 3 && layout != 1 && elemname.find("const") == std::string::npos)
+    g_cur_inst = inst;
+    g_cur_op = op;
+    if (g_shared) { share(g_shared->key, sizeof g_shared->key, rq.key); share(g_shared->inst, sizeof g_shared->inst, inst); share(g_shared->op, sizeof g_shared->op, op); }
+    // a few cases written out for the evidence: the first request of every (class, operation) on a 3-element guarded parent
+    if (n == 3 && layout != 1)
     {
-        int cat = !w.valid ? (std::strcmp(w.cls, "offset+count_overflows") == 0 ? 0 : 1)
-                  : !nontrivial_if_valid ? 7
-                  : inst.find("nonmember") != std::string::npos ? 5
-                  : op.find("ctor") != std::string::npos || op.find("convert") != std::string::npos || op.find("make_span") != std::string::npos ? 2
-                  : op.find('<') != std::string::npos ? 4 : 3;
-        if (cat < 7 && g_samples_left[cat] > 0)
-        {
-            --g_samples_left[cat];
-            vf::sample(std::string(MODE) + ": " + rq.key + (w.valid ? " => view of parent[" + su(w.off) + "," + su(w.off + w.cnt) + ")" : std::string(" => must be rejected (") + w.cls + ")"), 16);
-        }
+        std::string cat = (!w.valid ? std::string(w.cls) : nontrivial_if_valid ? std::string("proper") : std::string("whole/empty")) + "/" + op;
+        if (g_sampled.insert(cat).second)
+            vf::sample(std::string(MODE) + ": " + rq.key + (w.valid ? " => view of parent[" + su(w.off) + "," + su(w.off + w.cnt) + ")" : std::string(" => must be rejected (") + w.cls + ")") + " {" + cat + "}", 400);
     }
     return true;
 }
@@ -431,19 +445,19 @@ static void check_view(Req& rq, const Vw& v, Region<V>& rg, size_t off, size_t c
     if (cnt > 0 && !rq.failed)
     {
         const E *f = nullptr, *b = nullptr;
-        probe_count(rq, "front()/back()", 0, false);
+        probe_count(rq, "front(),back()", 0, false);
         Thrown t = guarded([&] { f = &v.front(); b = &v.back(); });
-        if (t != T_NONE) pviol(rq, vk, "front()/back()", "threw", std::string("non-empty view threw ") + tname(t));
-        else if (f != P || b != P + (cnt - 1)) pviol(rq, vk, "front()/back()", "wrong_element", "front/back do not refer to the first/last element of the requested range");
+        if (t != T_NONE) pviol(rq, vk, "front(),back()", "threw", std::string("non-empty view threw ") + tname(t));
+        else if (f != P || b != P + (cnt - 1)) pviol(rq, vk, "front(),back()", "wrong_element", "front/back do not refer to the first/last element of the requested range");
     }
     // iteration
     if (!rq.failed)
     {
         probe_count(rq, "iteration", 0, false);
         if (v.begin() != P || v.end() != P + cnt || v.cbegin() != P || v.cend() != P + cnt)
-            pviol(rq, vk, "begin()/end()", "wrong", "begin/end/cbegin/cend do not delimit the requested range");
+            pviol(rq, vk, "begin(),end()", "wrong", "begin/end/cbegin/cend do not delimit the requested range");
         else if (v.rbegin().base() != P + cnt || v.rend().base() != P || v.crbegin().base() != P + cnt || v.crend().base() != P)
-            pviol(rq, vk, "rbegin()/rend()", "wrong", "reverse iterators do not delimit the requested range");
+            pviol(rq, vk, "rbegin(),rend()", "wrong", "reverse iterators do not delimit the requested range");
         else
         {
             size_t k = 0;
@@ -693,7 +707,12 @@ struct dyn_ops
             std::vector<size_t> counts;
             for (size_t k = 0; k <= size_t(PE) + 2; ++k) counts.push_back(k);
             const size_t big[] = {size_t(1) << 32, (size_t(1) << 32) + size_t(PE), size_t(1) << 63, SIZE_MAX - 1, SIZE_MAX};
-            for (size_t b : big) counts.push_back(b);
+            for (size_t b : big)
+            {
+                bool dup = false;
+                for (size_t x : counts) if (x == b) dup = true;
+                if (!dup) counts.push_back(b);
+            }
             for (size_t have : counts)
             {
                 if (have == size_t(PE)) continue;
@@ -832,29 +851,56 @@ int main(int argc, char** argv)
         else { std::fprintf(stderr, "unknown argument %s\n", a.c_str()); return 2; }
     }
     if (g_nmax < 0 || g_nmax > 40) { std::fprintf(stderr, "--nmax out of range\n"); return 2; }
-    vf::install_crash_handler();
-    vf::crash_hook() = [](const char* sig) {
-        vf::violation(std::string("C16/harness/crash/") + MODE + ":" + sig, "[" + std::string(MODE) + " build] " + sig + " while executing request " + g_cur, {"--nmax", std::to_string(g_nmax), "--only", g_cur});
-    };
-    run_generated();
-    vf::stat("evaluations", g_eval);
-    vf::stat("requests", g_requests);
-    vf::stat(std::string("requests_") + MODE, g_requests);
-    vf::stat("requests_valid", g_valid);
-    vf::stat("requests_invalid_must_be_rejected", g_invalid);
-    vf::stat("invalid_requests_not_executed_in_unchecked_build", g_skipped);
-    vf::stat("views_probed", g_views);
-    vf::stat("probes", g_probes);
-    vf::stat("write_probes", g_writes);
-    if (!keys_out.empty())
+    g_shared = static_cast<Shared*>(mmap(nullptr, sizeof(Shared), PROT_READ | PROT_WRITE, MAP_SHARED | MAP_ANONYMOUS, -1, 0));
+    if (g_shared == MAP_FAILED) { std::perror("mmap"); return 2; }
+    std::memset(g_shared, 0, sizeof(Shared));
+    share(g_shared->inst, sizeof g_shared->inst, "harness");
+    share(g_shared->op, sizeof g_shared->op, "startup");
+    std::fflush(stdout);
+    pid_t pid = fork();
+    if (pid < 0) { std::perror("fork"); return 2; }
+    if (pid == 0)
     {
-        FILE* f = std::fopen(keys_out.c_str(), "wb");
-        if (!f) { std::fprintf(stderr, "cannot write %s\n", keys_out.c_str()); return 2; }
-        for (uint64_t h : g_keys_nt) { unsigned char tag = 1; std::fwrite(&tag, 1, 1, f); std::fwrite(&h, sizeof h, 1, f); }
-        for (uint64_t h : g_keys_req) { unsigned char tag = 0; std::fwrite(&tag, 1, 1, f); std::fwrite(&h, sizeof h, 1, f); }
-        std::fclose(f);
+        // hard crashes are attributed to the request that was executing
+        vf::install_crash_handler();
+        vf::crash_hook() = [](const char* what) {
+            vf::violation("C16/" + g_cur_inst + "/" + g_cur_op + "/" + MODE + ":fatal:" + what, "[" + std::string(MODE) + " build] " + what + " while executing request " + g_cur,
+                          {"--nmax", std::to_string(g_nmax), "--only", g_cur});
+        };
+        run_generated();
+        vf::stat("evaluations", g_eval);
+        vf::stat("requests", g_requests);
+        vf::stat(std::string("requests_") + MODE, g_requests);
+        vf::stat("requests_valid", g_valid);
+        vf::stat("requests_invalid_must_be_rejected", g_invalid);
+        vf::stat("invalid_requests_not_executed_in_unchecked_build", g_skipped);
+        vf::stat("views_probed", g_views);
+        vf::stat("probes", g_probes);
+        vf::stat("write_probes", g_writes);
+        if (!keys_out.empty())
+        {
+            FILE* f = std::fopen(keys_out.c_str(), "wb");
+            if (!f) { std::fprintf(stderr, "cannot write %s\n", keys_out.c_str()); _exit(2); }
+            for (uint64_t h : g_keys_nt) { unsigned char tag = 1; std::fwrite(&tag, 1, 1, f); std::fwrite(&h, sizeof h, 1, f); }
+            for (uint64_t h : g_keys_req) { unsigned char tag = 0; std::fwrite(&tag, 1, 1, f); std::fwrite(&h, sizeof h, 1, f); }
+            std::fclose(f);
+        }
+        if (g_have_only && g_requests == 0) vf::note("--only key matched no request of this binary: " + g_only);
+        vf::done();
+        g_shared->done = 1;
+        _exit(0);
     }
-    if (g_have_only && g_requests == 0) vf::note("--only key matched no request of this binary: " + g_only);
-    vf::done();
-    return 0;
+    int st = 0;
+    if (waitpid(pid, &st, 0) != pid) { std::perror("waitpid"); return 2; }
+    if (g_shared->done && WIFEXITED(st) && WEXITSTATUS(st) == 0) return 0;
+    if (WIFEXITED(st) && WEXITSTATUS(st) == 3) return 3;   // the child's signal handler has reported the crash
+    if (WIFEXITED(st) && WEXITSTATUS(st) == 2) return 2;   // harness-internal failure
+    // silent death: a fatal sanitizer report (UBSan in no-recover mode prints to stderr and exits) or a kill
+    const std::string how = WIFSIGNALED(st) ? "killed by signal " + std::to_string(WTERMSIG(st)) : "exit status " + std::to_string(WEXITSTATUS(st));
+    vf::violation(std::string("C16/") + g_shared->inst + "/" + g_shared->op + "/" + MODE + ":fatal:undefined_behaviour_report",
+                  "[" + std::string(MODE) + " build] the process ended abnormally (" + how + "; a fatal sanitizer report such as 'reference binding to null pointer' is on stderr) while executing request " + g_shared->key,
+                  {"--nmax", std::to_string(g_nmax), "--only", g_shared->key});
+    std::printf("@@{\"t\":\"crashed\",\"v\":\"abnormal end of the enumerating process (%s)\"}\n", how.c_str());
+    std::fflush(stdout);
+    return 3;
 }
